@@ -185,7 +185,7 @@ def run(ctx):
     except BuildError as e:
         broken.append("harness does not compile against the current tree: %s" % str(e)[-400:])
         ctx.broken.append(broken[-1])
-    per_combo, n_random = (600, 400) if quick else (6000, 3000)
+    per_combo, n_random = (600, 400) if quick else (20000, 6000)
     if broken and quick:
         per_combo, n_random = 1500, 1000      # something no longer checks: search harder
     targeted = corpus_lines() + witness_lines(flags)
